@@ -382,6 +382,8 @@ fn select_n_nodes(
 ) -> Result<Nodes, ConsistencyError> {
     use rand::seq::IteratorRandom;
     let mut rng = rand::thread_rng();
+    #[cfg(datacake_verif)]
+    let mut rng = verif::ScriptedRng::wrap(&mut rng);
 
     let num_nodes_outside_dc = total_nodes
         - data_centers
@@ -520,6 +522,86 @@ impl Iterator for NodeCycler {
         self.cursor += 1;
 
         res
+    }
+}
+
+#[cfg(datacake_verif)]
+/// Verification-only seam (compiled with `--cfg datacake_verif`): lets a harness decide
+/// every random draw made while selecting replicas on the current thread.
+pub mod verif {
+    use std::cell::RefCell;
+
+    use rand::RngCore;
+
+    #[derive(Default)]
+    struct Script {
+        draws: Vec<u32>,
+        next: usize,
+        consumed: usize,
+    }
+
+    thread_local! {
+        static SCRIPT: RefCell<Option<Script>> = RefCell::new(None);
+    }
+
+    /// Installs the raw `u32` values the next random draws on this thread will return
+    /// (draws beyond the script return 0 and are still counted).
+    pub fn script_rng(draws: Vec<u32>) {
+        SCRIPT.with(|s| {
+            *s.borrow_mut() = Some(Script {
+                draws,
+                next: 0,
+                consumed: 0,
+            })
+        });
+    }
+
+    /// Removes the script; returns how many draws were made while it was installed.
+    pub fn unscript_rng() -> usize {
+        SCRIPT.with(|s| s.borrow_mut().take().map(|s| s.consumed).unwrap_or(0))
+    }
+
+    pub(crate) struct ScriptedRng<R>(R);
+
+    impl<R: RngCore> ScriptedRng<R> {
+        pub(crate) fn wrap(inner: R) -> Self {
+            Self(inner)
+        }
+
+        fn scripted(&mut self) -> Option<u32> {
+            SCRIPT.with(|s| {
+                let mut guard = s.borrow_mut();
+                let script = guard.as_mut()?;
+                let v = script.draws.get(script.next).copied().unwrap_or(0);
+                script.next += 1;
+                script.consumed += 1;
+                Some(v)
+            })
+        }
+    }
+
+    impl<R: RngCore> RngCore for ScriptedRng<R> {
+        fn next_u32(&mut self) -> u32 {
+            match self.scripted() {
+                Some(v) => v,
+                None => self.0.next_u32(),
+            }
+        }
+
+        fn next_u64(&mut self) -> u64 {
+            match self.scripted() {
+                Some(v) => ((v as u64) << 32) | v as u64,
+                None => self.0.next_u64(),
+            }
+        }
+
+        fn fill_bytes(&mut self, dest: &mut [u8]) {
+            self.0.fill_bytes(dest)
+        }
+
+        fn try_fill_bytes(&mut self, dest: &mut [u8]) -> Result<(), rand::Error> {
+            self.0.try_fill_bytes(dest)
+        }
     }
 }
 
